@@ -23,8 +23,10 @@ numeric = Union[int, float]
 
 TACTICS_ORDER = [1, 2, 3, 4, 5]  # noqa: WPS407
 
-# relative tolerance granted to LP optima when deciding containment (the solver's own tolerance is 1e-7)
-CONTAINMENT_TOLERANCE = 1e-6
+# relative tolerance granted to LP optima when deciding containment: above the round-off of a vertex solution, and well
+# below anything a caller could mean by "contained" (a containment accepted although it fails by 1e-6 made the quotient
+# conjoin guarantees of a component whose assumptions did not hold)
+CONTAINMENT_TOLERANCE = 1e-9
 
 
 class PolyhedralTerm(Term):
